@@ -697,11 +697,12 @@ class Bus(ContainerBase, StoreClientMixin): # not a ContainerOperand
             ) -> tp.Iterator[tp.Tuple[tp.Hashable, tp.Any]]:
         '''Generator of index, value pairs, equivalent to Series.items(). Repeated to have a common signature as other axis functions.
         '''
-        yield from zip(self._series._index, self._series.values)
+        # NOTE: use items() so that deferred Frame are loaded (and max_persist observed)
+        yield from self.items()
 
     def _axis_element(self,
             ) -> tp.Iterator[tp.Any]:
-        yield from self._series.values
+        yield from (frame for _, frame in self.items())
 
     #---------------------------------------------------------------------------
     # dictionary-like interface; these will force loadings contained Frame
